@@ -91,8 +91,11 @@ type History struct {
 	NoBaseFee bool `json:"no_base_fee,omitempty"` // fee market without a base fee (a min gas price instead)
 	LateForks bool `json:"late_forks,omitempty"`  // genesis leaves London and the later hard forks unscheduled (governance schedules them)
 	// FutureEpoch: genesis registers an additional epoch that starts a little after genesis and ticks every 40 s
-	FutureEpoch bool     `json:"future_epoch,omitempty"`
-	Blocks      []HBlock `json:"blocks"`
+	FutureEpoch bool `json:"future_epoch,omitempty"`
+	// Start: genesis time (RFC 3339); empty = the harness default. Drawn near year ends and the leap day, where calendar
+	// arithmetic (coinomics' year length, epochs) is most sensitive
+	Start  string   `json:"start,omitempty"`
+	Blocks []HBlock `json:"blocks"`
 }
 
 const hUsers = 5
@@ -101,13 +104,17 @@ var hKinds = []string{
 	"send", "send", "delegate", "delegate", "delegate", "undelegate", "undelegate", "redelegate", "withdraw", "setwithdraw",
 	"gov-submit", "gov-deposit", "gov-vote", "vest-create", "vest-create", "vest-clawback", "lv-liquidate", "lv-redeem",
 	"dao-fund", "dao-transfer", "eth-send", "eth-create", "eth-call", "eth-call", "eth-delegate", "eth-withdraw", "eth-prog",
-	"bad-nonce", "low-fee", "unjail", "send-module", "delegate-all", "eth-fanout", "erc20-deploy", "erc20-mint", "erc20-transfer", "erc20-transfer", "erc20-convert",
+	"bad-nonce", "low-fee", "unjail", "send-module", "multisend-new", "delegate-all", "eth-fanout", "erc20-deploy", "erc20-mint", "erc20-transfer", "erc20-transfer", "erc20-convert",
 }
 
 var hGovKinds = []string{"register-erc20", "register-erc20", "toggle-pair", "precompile-off", "precompile-swap", "erc20-switch", "register-coin", "upgrade-plan", "fork-schedule"}
 
 // hModuleTargets: module accounts a user might (try to) send coins to.
 var hModuleTargets = []string{"distribution", "bonded_tokens_pool", "not_bonded_tokens_pool", "fee_collector", "gov", "erc20", "coinomics"}
+
+// hStarts: genesis times; half of the histories start shortly before a year end (leap -> common, common -> leap) or the
+// leap day, so that the calendar date of a block differs between time zones
+var hStarts = []string{"", "", "", "2024-12-31T12:00:00Z", "2024-12-31T23:59:30Z", "2023-12-31T13:00:00Z", "2024-02-28T23:59:00Z", "2027-12-31T23:00:00Z"}
 
 var hDts = []int64{1, 1, 2, 5, 5, 6, 30, 61, 61, 130, 3600, 86400, 400 * 86400}
 
@@ -124,6 +131,7 @@ func genHTx(t *rapid.T, kinds []string) HTx {
 func genHistory(t *rapid.T, minBlocks, maxBlocks int, kinds []string) History {
 	h := History{NumVals: rapid.IntRange(2, 4).Draw(t, "nvals"), Coinomics: rapid.Bool().Draw(t, "coinomics"), NoBaseFee: rapid.IntRange(0, 3).Draw(t, "nobasefee") == 0,
 		LateForks: rapid.IntRange(0, 5).Draw(t, "lateforks") == 0, FutureEpoch: rapid.IntRange(0, 2).Draw(t, "futureepoch") == 0}
+	h.Start = rapid.SampledFrom(hStarts).Draw(t, "start")
 	nb := rapid.IntRange(minBlocks, maxBlocks).Draw(t, "nblocks")
 	for i := 0; i < nb; i++ {
 		b := HBlock{Dt: rapid.SampledFrom(hDts).Draw(t, "dt"), Proposer: rapid.IntRange(0, 3).Draw(t, "proposer")}
@@ -253,6 +261,11 @@ func hVestAccts() []chain.Account { return chain.Accts("hvest", 3) }
 func hOpts(h History) chain.Opts {
 	o := chain.Opts{NumVals: h.NumVals, Accounts: append(hUsersAccts(), hVestAccts()...), ValPower: 100,
 		ExtraCoins: sdk.NewCoins(sdk.NewCoin("uxmpl", sdkmath.NewInt(1_000_000_000_000)))}
+	if h.Start != "" {
+		ts, err := time.Parse(time.RFC3339, h.Start)
+		must(err)
+		o.GenesisTime = ts.UTC()
+	}
 	if h.Coinomics {
 		p := coinomicstypes.DefaultParams()
 		g := coinomicstypes.NewGenesisState(p, sdk.NewCoin(chain.Denom, sdkmath.NewIntWithDecimal(1, 29)))
@@ -289,7 +302,7 @@ func hOpts(h History) chain.Opts {
 		if h.FutureEpoch {
 			var pg epochstypes.GenesisState
 			cdc.MustUnmarshalJSON(gs[epochstypes.ModuleName], &pg)
-			pg.Epochs = append(pg.Epochs, epochstypes.EpochInfo{Identifier: "launch", StartTime: chain.GenesisTime.Add(12 * time.Second), Duration: 40 * time.Second})
+			pg.Epochs = append(pg.Epochs, epochstypes.EpochInfo{Identifier: "launch", StartTime: hGenesisTime(h).Add(12 * time.Second), Duration: 40 * time.Second})
 			gs[epochstypes.ModuleName] = cdc.MustMarshalJSON(&pg)
 		}
 		if h.LateForks {
@@ -309,6 +322,15 @@ func hOpts(h History) chain.Opts {
 		}
 	}
 	return o
+}
+
+func hGenesisTime(h History) time.Time {
+	if h.Start == "" {
+		return chain.GenesisTime
+	}
+	ts, err := time.Parse(time.RFC3339, h.Start)
+	must(err)
+	return ts.UTC()
 }
 
 // ---- executor ------------------------------------------------------------------------------------------------
@@ -459,6 +481,22 @@ func (r *hRunner) buildTx(x HTx) []byte {
 				Outputs: []banktypes.Output{banktypes.NewOutput(B.Addr, half), banktypes.NewOutput(target, rest)}})
 		}
 		return cosmos(A, 200000, banktypes.NewMsgSend(A.Addr, target, sdk.NewCoins(coin)))
+	case "multisend-new":
+		// an airdrop: one input, several outputs to addresses that have no account yet (N == 7: one of them twice)
+		k := 2 + x.N%4
+		each := sdk.NewCoins(sdk.NewCoin(chain.Denom, coin.Amount.QuoRaw(int64(k+1)).AddRaw(1)))
+		var outs []banktypes.Output
+		total := sdk.NewCoins()
+		for i := 0; i < k; i++ {
+			to := chain.Acct(fmt.Sprintf("fresh-%d-%d-%d-%d", ctx.BlockHeight(), x.A, seq, i)).Addr
+			outs = append(outs, banktypes.NewOutput(to, each))
+			total = total.Add(each...)
+		}
+		if x.N == 7 {
+			outs = append(outs, outs[0])
+			total = total.Add(each...)
+		}
+		return cosmos(A, 200000+uint64(k)*100000, &banktypes.MsgMultiSend{Inputs: []banktypes.Input{banktypes.NewInput(A.Addr, total)}, Outputs: outs})
 	case "delegate":
 		return cosmos(A, 400000, stakingtypes.NewMsgDelegate(A.Addr, valAddr, coin))
 	case "undelegate", "redelegate", "withdraw":
